@@ -176,7 +176,7 @@ def run_case(case):
         C.setup_repo(sc, 3, 12)
         renamed = False
         for k in range(rng.choice([2, 3, 4])):
-            op = rng.choice(["commit", "commit", "partial", "rename", "rename-edit", "copy", "readd", "rebase", "cherry", "squash", "merge"])
+            op = rng.choice(["commit", "commit", "partial", "rename", "rename-edit", "rename-onto-old-name", "rename-onto-old-name", "copy", "readd", "rebase", "cherry", "squash", "merge"])
             for _ in range(rng.choice([1, 2, 3])):
                 sc.do_edit()
             if op == "commit":
@@ -196,6 +196,35 @@ def run_case(case):
                     if op == "rename-edit":
                         sc.do_edit(f=nf, kinds=["ins"])
                 sc.commit_all("mv")
+            elif op == "rename-onto-old-name":
+                # delete one tracked file in one commit, later rename another file onto the freed name (no edit): the old
+                # notes still list the *old* file under that name
+                sc.commit_all("before-swap")
+                tr = [x for x in sc.files if x in sc.tracked()]
+                if len(tr) >= 2:
+                    a, b = rng.sample(tr, 2)
+                    # one commit in which an agent and a person write at the same line numbers of the two files
+                    pos = rng.choice([0, 1, 2])
+                    la = sc.read(a); lb = sc.read(b)
+                    who = rng.choice(sc.sessions)
+                    sc.w.human_ckpt([b])
+                    lb[min(pos, len(lb)):min(pos, len(lb))] = [sc.fresh(who) for _ in range(rng.choice([1, 2, 3]))]
+                    sc.write(b, lb); sc.post_ai(who, b)
+                    la[min(pos, len(la)):min(pos, len(la))] = [sc.fresh("human") for _ in range(rng.choice([2, 3, 4]))]
+                    sc.write(a, la)
+                    sc.commit_all("same numbers")
+                    sc.g("rm", "-q", "--", b); sc.commit_all("rm old")
+                    if rng.random() < 0.5:
+                        sc.do_edit(f=a); sc.commit_all("between")
+                    p = sc.g("mv", "--", a, b)
+                    if p.rc == 0:
+                        sc.files.remove(a)
+                        if a in sc.styles:
+                            sc.styles[b] = sc.styles[a]
+                        renamed = True
+                    else:
+                        sc.files.remove(b)
+                    sc.commit_all("mv onto old name")
             elif op == "copy":
                 sc.commit_all("before-cp")
                 f = rng.choice(sc.files)
